@@ -3,6 +3,7 @@
    model) and Proofs/ThreadsInv2.v. *)
 From Coq Require Import List Bool Arith.
 From Pamiq Require Import Model.Threads Check.Sys Proofs.ThreadsInv Proofs.ThreadsInv2 Proofs.ThreadsProto.
+From Pamiq Require Proofs.ThreadsMon.
 Import ListNotations.
 
 (* The configuration of the real system: background thread 0 is the inference thread (agent, environment),
@@ -48,3 +49,11 @@ Example C09_rejects_second_teardown :
 Proof. reflexivity. Qed.
 Example C09_rejects_wrong_thread : C09_ok [(TBg 0, LCbB TTrain)] = false.
 Proof. reflexivity. Qed.
+
+(* ... as a monitor on traces (the C04 monitor): a state is written only inside an acknowledged pause or after all
+   joins, and while it is being written the background threads perform handshake operations only - no callback of an
+   owning thread, teardown included, overlaps a save *)
+Theorem C09_no_callback_overlaps_a_save : forall n kind max_attempts qmax with_web tr s,
+  run n kind max_attempts qmax with_web init tr = Some s -> C04_ok tr = true.
+Proof. exact Pamiq.Proofs.ThreadsMon.C04_monitor_holds. Qed.
+Print Assumptions C09_no_callback_overlaps_a_save.
